@@ -37,6 +37,7 @@ type Frame struct {
 	HdrLen     int  // header bytes consumed
 	NonMinimal bool // length was not minimally encoded
 	Off        int  // offset of the frame in the parsed stream
+	Truncated  bool // the stream ended inside this frame's payload (Payload = what arrived)
 }
 
 func (f Frame) IsControl() bool { return f.Opcode&0x8 != 0 }
